@@ -22,10 +22,17 @@ def ty_range_str(P, ty):
     return None
 
 
+# result ranges of workspace callees established elsewhere (a checked summary); such callees stay opaque in analyse_fn
+CALL_RANGES = {}
+# iterator types whose `for` loops have a known trip bound (a set of squares has at most 64 members; C18 shows next() removes one)
+TRIP_BOUNDS = {"chess_bitboard::BitBoardIter": 64, "chess_bitboard::pos::AllPosIter": 64}
+
+
 class Ranges:
     def __init__(self, P, body):
         self.P = P
         self.body = body
+        self.acc = {}           # (loop header, place id) -> (lo, hi) total drift of a bounded accumulator
         self.refine = {}        # term -> (lo, hi)
         self.ptypes = {}
         for i in range(body["argc"]):
@@ -35,6 +42,7 @@ class Ranges:
     def copy(self):
         r = Ranges(self.P, self.body)
         r.refine = dict(self.refine)
+        r.acc = self.acc
         return r
 
     def enum_range_of_type(self, ty):
@@ -52,9 +60,13 @@ class Ranges:
         while x[0] == "index":
             x = x[1]
             depth += 1
+        if x[0] == "const" and depth:
+            x = ("obj", ("static", x[1]))          # a `const` table: same value-set argument
         if x[0] == "obj" and x[1][0] == "static":
             key = x[1][1]
             v = self.P.values.get(key)
+            if v and "hex" not in v and isinstance(v.get("val"), dict) and "bytes" in v["val"] and not v["val"].get("relocs"):
+                v = dict(v, hex=v["val"]["bytes"])
             if not v or "hex" not in v:
                 return None
             tj = v.get("tj", {})
@@ -65,7 +77,7 @@ class Ranges:
             raw = bytes.fromhex(v["hex"])
             if elem.get("k") == "int":
                 w = elem["bits"] // 8
-                vals = [int.from_bytes(raw[i:i + w], "little") for i in range(0, len(raw), w)]
+                vals = [int.from_bytes(raw[i:i + w], "little", signed=bool(elem.get("signed"))) for i in range(0, len(raw), w)]
                 return (min(vals), max(vals)) if vals else None
             if elem.get("k") == "adt":
                 a = self.P.adts.get(elem["adt"])
@@ -73,7 +85,7 @@ class Ranges:
                     fs = [f for f in a["variants"][0]["fields"] if f["name"] == fname]
                     if fs and fs[0]["tj"].get("k") == "int":
                         w, off, size = fs[0]["tj"]["bits"] // 8, fs[0]["offset"], a["size"]
-                        vals = [int.from_bytes(raw[i + off:i + off + w], "little") for i in range(0, len(raw), size)]
+                        vals = [int.from_bytes(raw[i + off:i + off + w], "little", signed=bool(fs[0]["tj"].get("signed"))) for i in range(0, len(raw), size)]
                         return (min(vals), max(vals))
                 if a and a["kind"] == "struct" and fname in ("0", 0) and len(a["variants"][0]["fields"]) == 1 and a["variants"][0]["fields"][0]["tj"].get("k") == "int":
                     w = a["variants"][0]["fields"][0]["tj"]["bits"] // 8
@@ -164,6 +176,8 @@ class Ranges:
             return (0, 64)
         if k == "app":
             name = t[1]
+            if name in CALL_RANGES:
+                return CALL_RANGES[name]
             if "trailing_zeros" in name:
                 a = t[2][0] if t[2] else None
                 return (0, 63) if a is not None and a[0] == "nonzero" else (0, 64)
@@ -197,7 +211,27 @@ class Ranges:
                 # newtype over an enum-like? unknown
                 return None
             return None
+        if k == "obj" and t[1][0] == "app":
+            # dereferenced result of an opaque `impl Index<_> for [T; N]`: an element of the indexed array
+            import re as _re
+            m = _re.search(r"core::ops::index::Index<[^>]*> for \[(\w+); \d+\]>::index$", t[1][1])
+            if m:
+                a0 = t[1][2][0] if t[1][2] else None
+                if a0 is not None and a0[0] == "refv" and a0[1][0] in ("obj", "const"):
+                    c = self.static_column(("index", a0[1], ("int", 0, "usize")))
+                    if c:
+                        return c
+                return INT_RANGES.get(m.group(1))
+            rt = self.ret_type(t[1][1])
+            if rt and rt.lstrip("&").replace("mut ", "").strip() in INT_RANGES:
+                return INT_RANGES[rt.lstrip("&").replace("mut ", "").strip()]
+            return None
         if k == "loopvar":
+            d = self.acc.get((t[1], t[2]))
+            if d is not None:
+                ir = self.rng(t[3])
+                if ir is not None:
+                    return (ir[0] + d[0], ir[1] + d[1])
             return None
         if k == "vfield":
             return None
@@ -302,26 +336,174 @@ class Ranges:
         return True
 
 
+def loop_accumulators(P, body, eng, loop_leaves, trips=None):
+    """{(header, place id): (lo, hi)}: integer locals that every generic iteration of a loop with a known trip bound leaves unchanged or
+    increases/decreases by an amount the intervals can bound; (lo, hi) is the total drift over at most N iterations."""
+    by_h = {}
+    for lf in loop_leaves:
+        if lf.ret[2] == 0:
+            by_h.setdefault(lf.ret[1], []).append(lf)
+    out = {}
+    for h, lfs in by_h.items():
+        # the loop must carry an iterator with a trip bound which every generic iteration advances
+        n = None
+        cands = {}
+        fr0 = lfs[0].state.frames[0]
+        for i, v in fr0.locals.items():
+            ty = body["locals"][i]["ty"]
+            for pre, nn in (trips or {}).items():
+                if ty.startswith(pre):
+                    ty = pre
+            if ty in TRIP_BOUNDS or ty in (trips or {}):
+                lv = [s for s in _sub(eng.freeze(lfs[0].state, v)) if s[0] == "loopvar" and s[1] == h and s[2] == (i, ())]
+                if lv and all(eng.freeze(lf.state, lf.state.frames[0].locals.get(i)) != lv[0] for lf in lfs):
+                    nb = TRIP_BOUNDS.get(ty) or trips[ty]
+                    n = nb if n is None else min(n, nb)
+            elif ty in INT_RANGES and ty != "bool":
+                cands[i] = ty
+        if n is None:
+            continue
+        for i in cands:
+            lo, hi, ok, L = 0, 0, True, None
+            for lf in lfs:
+                new = eng.freeze(lf.state, lf.state.frames[0].locals.get(i, ("undef",)))
+                lvs = [s for s in _sub(new) if s[0] == "loopvar" and s[1] == h and s[2] == (i, ())]
+                if not lvs:
+                    ok = False          # overwritten with something unrelated to its previous value
+                    break
+                L = lvs[0]
+                if new == L:
+                    continue
+                e = None
+                if new[0] == "bin" and new[1] == "Add" and L in (new[2], new[3]):
+                    e, sign = (new[3] if new[2] == L else new[2]), 1
+                elif new[0] == "bin" and new[1] == "Sub" and new[2] == L:
+                    e, sign = new[3], -1
+                if e is None or any(s[0] == "loopvar" and s[1] == h and s[2] == (i, ()) for s in _sub(e)):
+                    ok = False
+                    break
+                R = Ranges(P, body)
+                for c, v in lf.cond:
+                    R.assume(c, v)
+                r = R.rng(e)
+                if r is None:
+                    ok = False
+                    break
+                r = (r[0], r[1]) if sign > 0 else (-r[1], -r[0])
+                lo, hi = min(lo, r[0]), max(hi, r[1])
+            if ok and L is not None:
+                out[(h, (i, ()))] = (n * lo, n * hi)
+    return out
+
+
+def _sub(t):
+    if isinstance(t, tuple) and t and isinstance(t[0], str):
+        yield t
+        for x in t:
+            if isinstance(x, tuple):
+                yield from _sub(x)
+    elif isinstance(t, tuple):
+        for x in t:
+            if isinstance(x, tuple):
+                yield from _sub(x)
+
+
+_HEAVY = {}
+
+
+def heavy_fns(P):
+    """Workspace functions whose call closure contains a body of >= 40 blocks or >= 200 blocks in total: kept opaque when full inlining explodes
+    (their results are then bounded by their types or by a checked result-range summary)."""
+    ck = id(P)
+    if ck in _HEAVY:
+        return _HEAVY[ck]
+    callees = {}
+    for k in P.fns:
+        callees[k] = {t["f"].get("fn") for _, t in P.calls(k) if t["f"].get("fn") in P.fns}
+    memo = {}
+
+    def closure(k):
+        seen, todo = set(), [k]
+        while todo:
+            x = todo.pop()
+            if x in seen:
+                continue
+            seen.add(x)
+            todo.extend(callees.get(x, ()))
+        return seen
+    out = set()
+    for k in P.fns:
+        cl = closure(k)
+        sizes = [len(P.fns[x]["blocks"]) for x in cl]
+        if max(sizes) >= 40 or sum(sizes) >= 200:
+            out.add(k)
+    _HEAVY[ck] = out
+    return out
+
+
+def _paths(P, key, inline, opaque, max_states):
+    """paths() with decreasing precision: full inlining, inlining with heavy callees opaque, no inlining."""
+    err = None
+    attempts = [(6, set())] + ([(6, heavy_fns(P) - {key})] if inline else []) if inline else []
+    attempts.append((0, set()))
+    for depth, extra in attempts:
+        eng = T.Engine(P, opaque=set(opaque) | set(CALL_RANGES) | extra, inline_depth=depth, max_states=max_states)
+        try:
+            return eng, eng.paths(key), None
+        except T.NotTabulable as e:
+            err = str(e)
+    return None, None, err
+
+
+def ret_range(P, key, max_states=60000, trips=None):
+    """Range of the integer result of `key` over all its paths (loops summarised by bounded accumulators), or None.
+    `trips`: extra {iterator type prefix: trip bound} valid inside this function only."""
+    body = P.body(key)
+    if body["locals"][0]["ty"] not in INT_RANGES:
+        return None
+    eng, res, err = _paths(P, key, True, set(), max_states)
+    if eng is None:
+        return None
+    rets, loops, panics = res
+    acc = loop_accumulators(P, body, eng, loops, trips)
+    lo, hi = None, None
+    for lf in rets:
+        R = Ranges(P, body)
+        R.acc = acc
+        for c, v in lf.cond:
+            R.assume(c, v)
+        if R.infeasible():
+            continue
+        r = R.rng(lf.ret)
+        if r is None:
+            return None
+        lo, hi = (r[0] if lo is None else min(lo, r[0])), (r[1] if hi is None else max(hi, r[1]))
+    tr = INT_RANGES[body["locals"][0]["ty"]]
+    if lo is None or lo < tr[0] or hi > tr[1]:
+        return None
+    return (lo, hi)
+
+
 def analyse_fn(P, key, inline=False, opaque=None, max_states=30000):
     """{(fn, block): 'safe' | 'unknown'} for the asserts and panic calls of function `key`, from a local (parameters opaque) analysis.
     A site is 'safe' only if on EVERY enumerated path reaching it the failing outcome is infeasible."""
     body = P.body(key)
-    eng = T.Engine(P, opaque=opaque or set(), inline_depth=(6 if inline else 0), max_states=max_states)
-    try:
-        rets, loops, panics = eng.paths(key)
-    except T.NotTabulable as e:
-        return None, str(e)
+    eng, res, err = _paths(P, key, inline, opaque or set(), max_states)
+    if eng is None:
+        return None, err
+    rets, loops, panics = res
     verdict = {}
+    acc = loop_accumulators(P, body, eng, loops)
 
     def mark(site, safe):
-        if site[0] != key:
-            return
+        # sites of inlined callees are recorded too (keyed by their own function): the verdict of a private helper's site *in this calling context*
         if safe:
             verdict.setdefault(site, "safe")
         else:
             verdict[site] = "unknown"
     for lf in rets + loops + panics:
         R = Ranges(P, body)
+        R.acc = acc
         dead = False
         events = [tr for tr in lf.trace if tr[0] == "site"]
         for t, v in lf.cond:
